@@ -60,10 +60,17 @@ func (c *Ctx) thorough(pd *propDef) {
 		c2 := &Ctx{P: P2, M: M2, Prop: c.Prop, Tier: c.Tier, start: c.start}
 		pd.Rules(c2)
 		bad := 0
-		for _, o := range c2.Obls {
+		have := map[string]bool{}
+		for _, o := range c.Obls {
 			if o.Status != "discharged" {
+				have[o.Key()] = true
+			}
+		}
+		for _, o := range c2.Obls {
+			if o.Status != "discharged" && !have[o.Key()] {
+				// fails only under GOARCH=386
 				bad++
-				o.Construct += " @GOARCH=386"
+				o.Detail = "[GOARCH=386] " + o.Detail
 				c.Obls = append(c.Obls, o)
 			}
 		}
